@@ -1,13 +1,11 @@
 (* C02, injectivity: two different in-shape indexes of a view never resolve to the same source
    element, so a write through the view changes exactly the element the mapping designates.
-   Proved here for every composition (any depth) of the nine single-source adaptors (sub-range,
-   mask, selection, expansion, rename, reversal, reordering, transposition, Box/&/&mut) over
-   tensor and matrix-backed leaves.  Stack / chain (several sources with pairwise distinct leaves)
-   are not covered by this proof; the correspondence check covers them (write-through + dump of
-   every leaf). *)
+   `view_injective`: for EVERY view term (all adaptors incl. stack and chain, any depth), given
+   pairwise distinct leaf ids.  `single_source_injective`: the corollary for compositions of the
+   nine single-source adaptors (which have one leaf, so no distinctness hypothesis is needed). *)
 From Coq Require Import List ZArith NArith Bool Arith Lia Permutation.
 From EasyML Require Import Base.Sx Model.Shape Model.Views Proofs.ShapeP Proofs.C01P
-  Proofs.C02Lemmas Proofs.C02P.
+  Proofs.C02Lemmas Proofs.C02P Proofs.C02W.
 Import ListNotations.
 Open Scope N_scope.
 
@@ -109,13 +107,70 @@ Proof.
   rewrite <- (Hn i1), <- (Hn i2), E. reflexivity.
 Qed.
 
+Definition leaf_ids (c : cview) : list N := map fst (c_leaves c).
+
+Lemma leaf_ids_flat cs : map fst (flat_map c_leaves cs) = flat_map leaf_ids cs.
+Proof. induction cs as [|c r IH]; cbn [flat_map]; [reflexivity|]. rewrite map_app, IH. reflexivity. Qed.
+
+Lemma NoDup_app_disjoint {A} (l1 l2 : list A) x : NoDup (l1 ++ l2) -> In x l1 -> In x l2 -> False.
+Proof.
+  induction l1 as [|a l1 IH]; cbn [app]; intros H H1 H2; [contradiction|].
+  inversion H as [|? ? Ha H']; subst. destruct H1 as [->|H1].
+  - apply Ha. apply in_or_app. right. exact H2.
+  - apply IH; assumption.
+Qed.
+
+Lemma NoDup_app_l {A} (l1 l2 : list A) : NoDup (l1 ++ l2) -> NoDup l1.
+Proof.
+  induction l1 as [|a l1 IH]; cbn [app]; intros H; [constructor|].
+  inversion H as [|? ? Ha H']; subst. constructor; [|apply IH; exact H'].
+  intros Hin. apply Ha. apply in_or_app. left. exact Hin.
+Qed.
+Lemma NoDup_app_r {A} (l1 l2 : list A) : NoDup (l1 ++ l2) -> NoDup l2.
+Proof. induction l1 as [|a l1 IH]; cbn [app]; intros H; [exact H|]. inversion H; subst. auto. Qed.
+
+Lemma NoDup_flat_map_in {A B} (f : A -> list B) l a : NoDup (flat_map f l) -> In a l -> NoDup (f a).
+Proof.
+  induction l as [|c r IH]; cbn [flat_map]; intros H Hin; [contradiction|].
+  destruct Hin as [->|Hin]; [eapply NoDup_app_l; exact H|].
+  apply IH; [eapply NoDup_app_r; exact H|exact Hin].
+Qed.
+
+Lemma NoDup_flat_map_disjoint {A B} (f : A -> list B) l : forall k1 k2 a b x,
+  NoDup (flat_map f l) -> nth_error l k1 = Some a -> nth_error l k2 = Some b -> k1 <> k2 ->
+  In x (f a) -> In x (f b) -> False.
+Proof.
+  induction l as [|c r IH]; intros k1 k2 a b x H E1 E2 Hne Ha Hb.
+  - destruct k1; discriminate.
+  - cbn [flat_map] in H. destruct k1 as [|k1], k2 as [|k2]; cbn [nth_error] in E1, E2; try lia.
+    + injection E1 as ->. apply (NoDup_app_disjoint _ _ x H Ha).
+      apply in_flat_map. exists b. split; [eapply nth_error_In; exact E2|exact Hb].
+    + injection E2 as ->. apply (NoDup_app_disjoint _ _ x H Hb).
+      apply in_flat_map. exists a. split; [eapply nth_error_In; exact E1|exact Ha].
+    + eapply (IH k1 k2); eauto. eapply NoDup_app_r; exact H.
+Qed.
+
+Lemma remove_at_inj : forall i1 i2 d along, length i1 = length i2 ->
+  nth (along - d) i1 0 = nth (along - d) i2 0 ->
+  (d <= along)%nat -> remove_at d along i1 = remove_at d along i2 -> i1 = i2.
+Proof.
+  induction i1 as [|a i1 IH]; intros [|b i2] d along HL Hn Hd E; cbn [length] in HL; try lia; [reflexivity|].
+  cbn [remove_at] in E. destruct (Nat.eqb_spec d along) as [->|Hne].
+  - rewrite Nat.sub_diag in Hn. cbn [nth] in Hn. subst b.
+    destruct (stack_passed [] (S along) along (0%nat, 0) i1 ltac:(lia)) as [_ A1].
+    destruct (stack_passed [] (S along) along (0%nat, 0) i2 ltac:(lia)) as [_ A2].
+    rewrite A1, A2 in E. f_equal. exact E.
+  - injection E as -> E. f_equal. apply (IH i2 (S d) along); try lia; [|exact E].
+    replace (along - d)%nat with (S (along - S d)) in Hn by lia. exact Hn.
+Qed.
+
 Lemma mapping_range' c rs idx : cwf (CRange c rs) -> c_get (CRange c rs) idx =
   match map_indexes_by_range idx rs with Some idx' => c_get c idx' | None => None end.
 Proof. reflexivity. Qed.
 
-Theorem single_source_injective c : cwf c -> usize_view c -> single_source c -> inj_on c.
+Theorem view_injective c : cwf c -> usize_view c -> NoDup (leaf_ids c) -> inj_on c.
 Proof.
-  induction c using cview_ind'; cbn [cwf usize_view single_source]; unfold inj_on.
+  induction c using cview_ind'; unfold leaf_ids in *; cbn [cwf usize_view c_leaves]; unfold inj_on.
   - (* tensor *)
     intros [Hv ->] _ _ i1 i2 R1 R2. cbn [c_shape c_get] in *.
     rewrite !get_index_direct_spec by (apply in_range_length in R1, R2; rewrite lens_of_length in *; assumption).
@@ -211,8 +266,122 @@ Proof.
     destruct (access_step (c_shape c) req tbl i2 Hnd Hl Hnew L2) as [_ H2].
     intros E. apply (IHc Hw Hu Hs) in E; [| apply H1; exact R1 | apply H2; exact R2].
     eapply to_source_inj; eauto.
-  - intros _ _ [].
-  - intros _ _ [].
+  - (* stack *)
+    intros Hw Hu Hnd i1 i2 R1 R2 E.
+    destruct (cwf_contract (CStack cs along n) Hw Hu) as [_ Hpres].
+    destruct Hw as [Hne [Hall [Hal [Hnin Hsame]]]]. rewrite all_Forall in Hall, Hu.
+    rewrite leaf_ids_flat in Hnd.
+    assert (L1 := in_range_length _ _ R1). assert (L2 := in_range_length _ _ R2).
+    rewrite lens_of_length in L1, L2.
+    pose proof (proj2 (Hpres i1 L1) R1) as P1. pose proof (proj2 (Hpres i2 L2) R2) as P2.
+    set (sh0 := first_shape cs) in *.
+    assert (HS : length (c_shape (CStack cs along n)) = S (length sh0)).
+    { cbn [c_shape]. fold (first_shape cs). fold sh0.
+      destruct (stack_step sh0 0 along (n, N.of_nat (length cs)) (repeat 0 (S (length sh0)))
+                  ltac:(lia) ltac:(apply repeat_length)) as [P _].
+      apply Permutation_length in P. exact P. }
+    rewrite HS in L1, L2.
+    destruct (stack_step sh0 0 along (n, N.of_nat (length cs)) i1 ltac:(lia) L1) as [_ [LR1 _]].
+    destruct (stack_step sh0 0 along (n, N.of_nat (length cs)) i2 ltac:(lia) L2) as [_ [LR2 _]].
+    rewrite c_get_stack, pickN_spec in P1, P2. rewrite !c_get_stack, !pickN_spec in E.
+    destruct (nth_error cs (N.to_nat (nth along i1 0))) as [ck1|] eqn:E1; [|congruence].
+    destruct (nth_error cs (N.to_nat (nth along i2 0))) as [ck2|] eqn:E2; [|congruence].
+    destruct (c_get ck1 (remove_at 0 along i1)) as [[l off]|] eqn:G1; [|congruence].
+    symmetry in E. rename E into G2.
+    pose proof (Forall_nth_error _ _ _ _ Hall E1) as W1. pose proof (Forall_nth_error _ _ _ _ Hall E2) as W2.
+    destruct (cwf_resolves_in_bounds ck1 W1 _ _ _ G1) as [n1 [M1 _]].
+    destruct (cwf_resolves_in_bounds ck2 W2 _ _ _ G2) as [n2 [M2 _]].
+    assert (I1 : In l (leaf_ids ck1)) by (unfold leaf_ids; change l with (fst (l, n1)); apply in_map; exact M1).
+    assert (I2 : In l (leaf_ids ck2)) by (unfold leaf_ids; change l with (fst (l, n2)); apply in_map; exact M2).
+    assert (Hk : N.to_nat (nth along i1 0) = N.to_nat (nth along i2 0)).
+    { destruct (Nat.eq_dec (N.to_nat (nth along i1 0)) (N.to_nat (nth along i2 0))) as [e|ne]; [exact e|].
+      exfalso. exact (NoDup_flat_map_disjoint leaf_ids cs _ _ _ _ l Hnd E1 E2 ne I1 I2). }
+    rewrite <- Hk in E2. rewrite E1 in E2. injection E2 as <-.
+    pose proof (Forall_nth_error _ _ _ _ H E1) as IH.
+    pose proof (Forall_nth_error _ _ _ _ Hu E1) as U1.
+    pose proof (Forall_nth_error _ _ _ _ Hsame E1) as S1. cbn beta in S1.
+    assert (N1 : NoDup (leaf_ids ck1)) by (eapply NoDup_flat_map_in; [exact Hnd|eapply nth_error_In; exact E1]).
+    destruct (cwf_contract ck1 W1 U1) as [_ Hc1].
+    assert (Q1 : in_range (remove_at 0 along i1) (lens_of (c_shape ck1)))
+      by (apply Hc1; [rewrite S1; exact LR1|congruence]).
+    assert (Q2 : in_range (remove_at 0 along i2) (lens_of (c_shape ck1)))
+      by (apply Hc1; [rewrite S1; exact LR2|congruence]).
+    assert (ER : remove_at 0 along i1 = remove_at 0 along i2)
+      by (apply (IH W1 U1 N1 _ _ Q1 Q2); congruence).
+    apply (remove_at_inj i1 i2 0 along); [lia| |lia|exact ER].
+    rewrite Nat.sub_0_r. apply N2Nat.inj. exact Hk.
+  - (* chain *)
+    intros Hw Hu Hnd i1 i2 R1 R2 E.
+    destruct (cwf_contract (CChain cs along) Hw Hu) as [_ Hpres].
+    destruct Hw as [Hne [Hall [Hal Hsim]]]. rewrite all_Forall in Hall, Hu.
+    rewrite leaf_ids_flat in Hnd.
+    assert (L1 := in_range_length _ _ R1). assert (L2 := in_range_length _ _ R2).
+    rewrite lens_of_length in L1, L2.
+    pose proof (proj2 (Hpres i1 L1) R1) as P1. pose proof (proj2 (Hpres i2 L2) R2) as P2.
+    set (sh0 := first_shape cs) in *.
+    assert (HS : length (c_shape (CChain cs along)) = length sh0).
+    { cbn [c_shape]. fold (first_shape cs). fold sh0. apply list_upd_length. }
+    rewrite HS in L1, L2.
+    rewrite c_get_chain in P1, P2. rewrite !c_get_chain in E.
+    set (lens := map (fun c0 => len_at (c_shape c0) along) cs) in *.
+    pose proof (chain_find_spec lens (nth along i1 0) 0) as F1.
+    pose proof (chain_find_spec lens (nth along i2 0) 0) as F2.
+    destruct (chain_find lens (nth along i1 0) 0) as [[k1 j1]|]; [|congruence].
+    destruct (chain_find lens (nth along i2 0) 0) as [[k2 j2]|]; [|congruence].
+    rewrite picknat_spec in P1, P2. rewrite !picknat_spec in E.
+    destruct (nth_error cs k1) as [ck1|] eqn:E1; [|congruence].
+    destruct (nth_error cs k2) as [ck2|] eqn:E2; [|congruence].
+    destruct (c_get ck1 (list_upd i1 along j1)) as [[l off]|] eqn:G1; [|congruence].
+    symmetry in E. rename E into G2.
+    pose proof (Forall_nth_error _ _ _ _ Hall E1) as W1. pose proof (Forall_nth_error _ _ _ _ Hall E2) as W2.
+    destruct (cwf_resolves_in_bounds ck1 W1 _ _ _ G1) as [n1 [M1 _]].
+    destruct (cwf_resolves_in_bounds ck2 W2 _ _ _ G2) as [n2 [M2 _]].
+    assert (I1 : In l (leaf_ids ck1)) by (unfold leaf_ids; change l with (fst (l, n1)); apply in_map; exact M1).
+    assert (I2 : In l (leaf_ids ck2)) by (unfold leaf_ids; change l with (fst (l, n2)); apply in_map; exact M2).
+    assert (Hk : k1 = k2).
+    { destruct (Nat.eq_dec k1 k2) as [e|ne]; [exact e|].
+      exfalso. exact (NoDup_flat_map_disjoint leaf_ids cs _ _ _ _ l Hnd E1 E2 ne I1 I2). }
+    subst k2. rewrite E1 in E2. injection E2 as <-.
+    pose proof (Forall_nth_error _ _ _ _ H E1) as IH.
+    pose proof (Forall_nth_error _ _ _ _ Hu E1) as U1.
+    pose proof (Forall_nth_error _ _ _ _ Hsim E1) as S1. cbn beta in S1.
+    destruct (similar_from_spec _ _ _ _ S1) as [SL _].
+    assert (N1 : NoDup (leaf_ids ck1)) by (eapply NoDup_flat_map_in; [exact Hnd|eapply nth_error_In; exact E1]).
+    destruct (cwf_contract ck1 W1 U1) as [_ Hc1].
+    assert (Q1 : in_range (list_upd i1 along j1) (lens_of (c_shape ck1)))
+      by (apply Hc1; [rewrite list_upd_length; lia|congruence]).
+    assert (Q2 : in_range (list_upd i2 along j2) (lens_of (c_shape ck1)))
+      by (apply Hc1; [rewrite list_upd_length; lia|congruence]).
+    assert (ER : list_upd i1 along j1 = list_upd i2 along j2)
+      by (apply (IH W1 U1 N1 _ _ Q1 Q2); congruence).
+    destruct F1 as [_ [_ S1']], F2 as [_ [_ S2']].
+    assert (Hj : j1 = j2).
+    { pose proof (f_equal (fun l0 => nth along l0 0) ER) as Hn. cbn beta in Hn.
+      rewrite !list_upd_nth_same in Hn by lia. exact Hn. }
+    apply nth_ext with (d := 0) (d' := 0); [lia|]. intros d Hd.
+    destruct (Nat.eq_dec d along) as [->|Hne'].
+    + rewrite S1', S2', Hj. reflexivity.
+    + pose proof (f_equal (fun l0 => nth d l0 0) ER) as Hn. cbn beta in Hn.
+      rewrite !list_upd_nth_other in Hn by exact Hne'. exact Hn.
   - (* wrap *)
     intros Hw Hu Hs i1 i2 R1 R2. cbn [c_shape c_get] in *. apply (IHc Hw Hu Hs); assumption.
 Qed.
+
+Lemma single_source_one_leaf c : single_source c -> exists x, c_leaves c = [x].
+Proof.
+  induction c using cview_ind'; cbn [single_source c_leaves]; intros Hs; try (apply IHc; exact Hs);
+    try contradiction; eexists; reflexivity.
+Qed.
+
+Theorem single_source_injective c : cwf c -> usize_view c -> single_source c -> inj_on c.
+Proof.
+  intros Hw Hu Hs. apply view_injective; auto. unfold leaf_ids.
+  destruct (single_source_one_leaf c Hs) as [x ->]. cbn. constructor; [intros []|constructor].
+Qed.
+
+(* write exactness: a write through the view at idx1 stores into (leaf, offset) = c_get c idx1;
+   what any OTHER in-shape index reads is a different element, hence unchanged *)
+Theorem view_write_exact c : cwf c -> usize_view c -> NoDup (leaf_ids c) ->
+  forall i1 i2, in_range i1 (lens_of (c_shape c)) -> in_range i2 (lens_of (c_shape c)) ->
+    i1 <> i2 -> c_get c i1 <> c_get c i2.
+Proof. intros Hw Hu Hn i1 i2 R1 R2 Hne E. apply Hne. eapply view_injective; eauto. Qed.
